@@ -48,6 +48,15 @@ impl EnrKey for secp256k1::SecretKey {
 impl EnrKeyUnambiguous for secp256k1::SecretKey {
     fn decode_public(bytes: &[u8]) -> Result<Self::PublicKey, DecoderError> {
         // should be encoded in compressed form, i.e 33 byte raw secp256k1 public key
+        // Only the SEC1 encodings that every secp256k1 back-end understands are accepted (compressed and
+        // uncompressed); `k256` would also take the x-only form (tag 0x05) and `secp256k1` the hybrid form
+        // (tags 0x06/0x07), and a record must not be valid for one back-end only.
+        if !matches!(
+            (bytes.len(), bytes.first()),
+            (33, Some(0x02 | 0x03)) | (65, Some(0x04))
+        ) {
+            return Err(DecoderError::Custom("Invalid Secp256k1 Signature"));
+        }
         secp256k1::PublicKey::from_slice(bytes)
             .map_err(|_| DecoderError::Custom("Invalid Secp256k1 Signature"))
     }
